@@ -28,23 +28,33 @@ VERIF = vp.VERIF
 
 # ---------------------------------------------------------------- trace -> inputs
 def inputs_from_trace(trace):
+    """last value assigned to every scalar cell of every ghost input (globals named vp_in*)"""
     vals = {}
     order = []
+
+    def put(lhs, v):
+        if 'elements' in v:
+            for e in v['elements']:
+                put('%s[%d]' % (lhs, e['index']), e['value'])
+            return
+        if 'members' in v:
+            for m in v['members']:
+                if '$pad' not in m['name']:
+                    put('%s.%s' % (lhs, m['name']), m['value'])
+            return
+        if 'binary' not in v:
+            return
+        if lhs not in vals:
+            order.append(lhs)
+        vals[lhs] = {'binary': v['binary'], 'data': v.get('data'), 'type': v.get('type')}
     for st in trace or []:
         if st.get('stepType') != 'assignment':
             continue
         lhs = st.get('lhs', '')
-        if not re.match(r'^vp_in', lhs) or lhs.startswith('vp_internal'):
-            continue
-        if '$pad' in lhs:
-            continue
-        v = st.get('value', {})
-        if 'binary' not in v or '[' not in lhs and 'elements' in v:
+        if not re.match(r'^vp_in', lhs) or '$pad' in lhs:
             continue
         lhs = re.sub(r'\[(\d+)[a-zA-Z]*\]', r'[\1]', lhs)
-        if lhs not in vals:
-            order.append(lhs)
-        vals[lhs] = {'binary': v['binary'], 'data': v.get('data'), 'type': v.get('type')}
+        put(lhs, st.get('value', {}))
     return [(k, vals[k]) for k in order]
 
 
@@ -285,6 +295,12 @@ def build_and_run_twin(unit, chk, inputs, workdir, native_slices=None, obligatio
     for i, f in enumerate(cxx):
         o = os.path.join(workdir, 'n%d.o' % i)
         rc, out, err, _ = vp.sh(['g++', '-std=gnu++14', '-Dprivate=public', '-Dprotected=public', '-I' + unit.dir] + fl + defs + ['-c', f, '-o', o])
+        if rc != 0:
+            return 'build-failed', '%s: %s' % (f, err[-3000:])
+        objs.append(o)
+    for i, f in enumerate(unit.file(x) for x in unit.spec.get('env_c', [])):
+        o = os.path.join(workdir, 'nc%d.o' % i)
+        rc, out, err, _ = vp.sh(['gcc'] + fl + defs + ['-c', f, '-o', o])
         if rc != 0:
             return 'build-failed', '%s: %s' % (f, err[-3000:])
         objs.append(o)
